@@ -59,7 +59,8 @@ def build():
         env = dict(os.environ, PYTHONPATH="")
         for gen, out in (("gen_consts.py", "Consts.v"), ("gen_callgraph.py", "CallGraph.v"), ("gen_helpers.py", "GenHelpers.v"),
                          ("gen_helpers2.py", "GenHelpers2.v"), ("gen_storage.py", "GenStorage.v"),
-                         ("gen_node.py", "GenNode.v"), ("gen_links.py", "GenLinks.v"), ("gen_trie.py", "GenTrie.v")):
+                         ("gen_node.py", "GenNode.v"), ("gen_links.py", "GenLinks.v"), ("gen_trie.py", "GenTrie.v"),
+                         ("gen_triew.py", "GenTrieW.v")):
             g = os.path.join(HERE, gen)
             if not os.path.exists(g):
                 continue
